@@ -175,6 +175,17 @@ func (w *World) Open() {
 	w.OpenWith(db)
 }
 
+// OpenSim starts a process generation whose handle goes through the wrapper SQL driver (layer 2): the real
+// database.Init runs first on the file (migrations, genesis), then the same file is opened with sqlite3-sim.
+func (w *World) OpenSim() {
+	db, err := database.Init(w.Cfg, &w.Log)
+	if err != nil {
+		Infra("database.Init: %v", err)
+	}
+	_ = db.Close()
+	w.OpenWith(openSim(w.DBPath))
+}
+
 // OpenWith builds the services on an already opened handle.
 func (w *World) OpenWith(db *sqlx.DB) {
 	w.DB = db
@@ -208,6 +219,7 @@ func (w *World) OpenWith(db *sqlx.DB) {
 
 // Close drops the process generation (all in-memory objects) and closes the handle.
 func (w *World) Close() {
+	simKillAll()
 	if w.DB != nil {
 		_ = w.DB.Close()
 		w.DB = nil
